@@ -99,6 +99,9 @@ type record struct {
 	Size     int       `json:"size"`
 	Sampled  bool      `json:"sampled"`
 	Exits    []exitRec `json:"exits"`
+	// nested use: Lookup / All called from inside the consumer of All(), streaming and in-memory reader
+	Nest  nestRec `json:"nest"`
+	MNest nestRec `json:"mnest"`
 	// the in-memory value itself (multi-step cases): its All() and Lookup after the edits
 	Mem   bool  `json:"mem"`
 	VAllK []int `json:"vallk"`
@@ -118,6 +121,20 @@ type exitRec struct {
 	MV []int `json:"mv"`
 	SP int   `json:"sp"`
 	MP int   `json:"mp"`
+}
+
+// nestRec: All() consumed completely (OK/OV: keys and values as yielded) by a
+// consumer that, at selected entries, calls Lookup on the same reader (LK: the
+// keys asked, LA: the answers) and starts a second All() which it leaves after
+// three entries (AK/AV: what those yielded, AC: how many were started).
+type nestRec struct {
+	OK []int `json:"ok"`
+	OV []int `json:"ov"`
+	LK []int `json:"lk"`
+	LA []int `json:"la"`
+	AK []int `json:"ak"`
+	AV []int `json:"av"`
+	AC int   `json:"ac"`
 }
 
 // exitPoints: where the consumer stops (around leaf and subtree boundaries, at the ends).
@@ -154,8 +171,31 @@ type observation struct {
 	Consumed int    // entries the writer took from the iterator
 }
 
-// value objects: five syntactic kinds, recognisable after the round trip
-func valueObj(vid int, indirect func(pdf.Object) pdf.Reference) pdf.Object {
+// Value objects.  Value ids 0..4 are the awkward values: 0 the null object
+// (stored directly), 1 an empty array, 2 an empty dictionary, 3 a reference
+// to an object that is null, 4 a reference to an object that does not exist.
+// From 5 on: five syntactic kinds, recognisable after the round trip.  With
+// indirect == nil (values of in-memory trees, which live across files) the
+// reference kinds become big integers.
+type valRefs struct{ null, missing pdf.Reference }
+
+func valueObj(vid int, indirect func(pdf.Object) pdf.Reference, vr *valRefs) pdf.Object {
+	switch vid {
+	case 0:
+		return nil
+	case 1:
+		return pdf.Array{}
+	case 2:
+		return pdf.Dict{}
+	case 3, 4:
+		if indirect == nil || vr == nil {
+			return pdf.Integer(1_000_000 + vid)
+		}
+		if vid == 3 {
+			return vr.null
+		}
+		return vr.missing
+	}
 	switch vid % 5 {
 	case 0:
 		return pdf.Integer(vid)
@@ -166,18 +206,29 @@ func valueObj(vid int, indirect func(pdf.Object) pdf.Reference) pdf.Object {
 	case 3:
 		return pdf.Array{pdf.Integer(vid), pdf.String("x)(\\")}
 	default:
+		if indirect == nil {
+			return pdf.Integer(1_000_000 + vid)
+		}
 		return indirect(pdf.Integer(1_000_000 + vid))
 	}
 }
 
 // vidOf recognises a value; -3 if it is none of ours.
-func vidOf(r pdf.Getter, obj pdf.Object) int {
+func vidOf(r pdf.Getter, obj pdf.Object) int { return (*valRefs)(nil).vidOf(r, obj) }
+
+func (vr *valRefs) vidOf(r pdf.Getter, obj pdf.Object) int {
 	if obj == nil {
-		return -3
+		return 0
 	}
 	wasRef := false
-	if _, ok := obj.(pdf.Reference); ok {
+	if ref, ok := obj.(pdf.Reference); ok {
 		wasRef = true
+		if vr != nil && ref == vr.null {
+			return 3
+		}
+		if vr != nil && ref == vr.missing {
+			return 4
+		}
 		if r == nil {
 			return -3
 		}
@@ -190,38 +241,49 @@ func vidOf(r pdf.Getter, obj pdf.Object) int {
 		}
 		nat = n2
 	}
+	if nat == nil {
+		return -3 // a reference of ours never leads to null, except the two above
+	}
 	vid := -3
 	switch x := nat.(type) {
 	case pdf.Integer:
 		if wasRef || x >= 1_000_000 { // values of in-memory cases are never indirect
 			vid = int(x) - 1_000_000
-			if vid < 0 || vid%5 != 4 {
+			if vid < 3 || (vid >= 5 && vid%5 != 4) || (wasRef && vid < 5) {
 				return -3
 			}
 		} else {
 			vid = int(x)
-			if vid < 0 || vid%5 != 0 {
+			if vid < 5 || vid%5 != 0 {
 				return -3
 			}
 		}
 	case pdf.String:
-		if _, err := fmt.Sscanf(string(x), "s%d", &vid); err != nil || vid%5 != 1 || string(x) != fmt.Sprintf("s%d", vid) {
+		if _, err := fmt.Sscanf(string(x), "s%d", &vid); err != nil || vid < 5 || vid%5 != 1 || string(x) != fmt.Sprintf("s%d", vid) {
 			return -3
 		}
 	case pdf.Name:
-		if _, err := fmt.Sscanf(string(x), "n%d", &vid); err != nil || vid%5 != 2 || string(x) != fmt.Sprintf("n%d", vid) {
+		if _, err := fmt.Sscanf(string(x), "n%d", &vid); err != nil || vid < 5 || vid%5 != 2 || string(x) != fmt.Sprintf("n%d", vid) {
 			return -3
 		}
 	case pdf.Array:
+		if len(x) == 0 {
+			return 1
+		}
 		if len(x) != 2 {
 			return -3
 		}
 		i, ok := x[0].(pdf.Integer)
 		s, ok2 := x[1].(pdf.String)
-		if !ok || !ok2 || string(s) != "x)(\\" || int(i)%5 != 3 || i < 0 {
+		if !ok || !ok2 || string(s) != "x)(\\" || int(i)%5 != 3 || i < 5 {
 			return -3
 		}
 		vid = int(i)
+	case pdf.Dict:
+		if len(x) == 0 {
+			return 2
+		}
+		return -3
 	}
 	return vid
 }
@@ -321,6 +383,9 @@ func build(s spec) (written []ckey, vids map[ckey]int, input []ckey, probes []ck
 	vmax := s.N/2 + 3
 	for _, k := range written {
 		vids[k] = rng.Intn(vmax)
+		if rng.Intn(8) == 0 {
+			vids[k] = rng.Intn(5) // the awkward values: null, empty containers, references to null / nothing
+		}
 	}
 	per := s.Per
 	if per == 0 {
@@ -397,6 +462,8 @@ func examine[K cmp.Ordered](s spec, api treeAPI[K], in caseInput, memVal reader[
 	rec := &ob.Rec
 	rec.ID, rec.Kind, rec.API = s.id(), s.kind(), s.API
 	rec.VAllK, rec.VAllV, rec.VL = []int{}, []int{}, []int{}
+	rec.Nest = nestRec{OK: []int{}, OV: []int{}, LK: []int{}, LA: []int{}, AK: []int{}, AV: []int{}}
+	rec.MNest = rec.Nest
 
 	// --- write a real file
 	var buf bytes.Buffer
@@ -422,9 +489,12 @@ func examine[K cmp.Ordered](s spec, api treeAPI[K], in caseInput, memVal reader[
 		return ref
 	}
 	objs := map[ckey]pdf.Object{}
+	vr := &valRefs{}
 	if memVal == nil {
+		vr.null = indirect(nil) // "N 0 obj null endobj"
+		vr.missing = w.Alloc()  // never written
 		for k, vid := range vids {
-			objs[k] = valueObj(vid, indirect)
+			objs[k] = valueObj(vid, indirect, vr)
 		}
 	}
 	if putErr != nil {
@@ -555,7 +625,7 @@ func examine[K cmp.Ordered](s spec, api treeAPI[K], in caseInput, memVal reader[
 	// --- every node, through the generic object API only
 	var nodes []rawNode
 	if root != nil {
-		nodes = walk(r, root, api.leafKey, api.decodeKey)
+		nodes = walk(r, root, api.leafKey, api.decodeKey, vr)
 		ob.RootKind = nodes[0].Kind
 		ob.Shape = shapeOf(nodes)
 	}
@@ -576,11 +646,11 @@ func examine[K cmp.Ordered](s spec, api treeAPI[K], in caseInput, memVal reader[
 	if ff != nil && mem != nil {
 		for k, v := range ff.All() {
 			all.keys = append(all.keys, api.fromK(k))
-			all.vals = append(all.vals, vidOf(r, v))
+			all.vals = append(all.vals, vr.vidOf(r, v))
 		}
 		for k, v := range mem.All() {
 			mall.keys = append(mall.keys, api.fromK(k))
-			mall.vals = append(mall.vals, vidOf(r, v))
+			mall.vals = append(mall.vals, vr.vidOf(r, v))
 		}
 		n, err := api.size(r, root)
 		if err != nil {
@@ -591,8 +661,8 @@ func examine[K cmp.Ordered](s spec, api treeAPI[K], in caseInput, memVal reader[
 		for _, k := range exitPoints(len(written)) {
 			var e exitCalls
 			e.k = k
-			e.sk, e.sv = stopAt(ff, k, func(v pdf.Object) int { return vidOf(r, v) }, api.fromK)
-			e.mk, e.mv = stopAt(mem, k, func(v pdf.Object) int { return vidOf(r, v) }, api.fromK)
+			e.sk, e.sv = stopAt(ff, k, func(v pdf.Object) int { return vr.vidOf(r, v) }, api.fromK)
+			e.mk, e.mv = stopAt(mem, k, func(v pdf.Object) int { return vr.vidOf(r, v) }, api.fromK)
 			e.sp, e.mp = breakAt(ff, k), breakAt(mem, k)
 			exits = append(exits, e)
 			ob.Evals += 4
@@ -692,7 +762,7 @@ func examine[K cmp.Ordered](s spec, api treeAPI[K], in caseInput, memVal reader[
 			v, err := t.Lookup(api.toK(k))
 			switch {
 			case err == nil:
-				return vidOf(r, v)
+				return vr.vidOf(r, v)
 			case errors.Is(err, api.notFound):
 				return -1
 			default:
@@ -728,6 +798,58 @@ func examine[K cmp.Ordered](s spec, api treeAPI[K], in caseInput, memVal reader[
 			rec.ML = append(rec.ML, answer(mem, k))
 		}
 		ob.Evals += len(union)
+
+		// nested use of one reader: inside the consumer of All(), at the first entry, at the leaf
+		// boundaries and at every step-th entry, Lookup of the current key, of a key in another
+		// leaf and of an absent key; at every other of these entries a second All(), left after 3 entries
+		step := 17
+		if len(written) > 1000 {
+			step = 131
+		}
+		nested := func(t reader[K]) nestRec {
+			nr := nestRec{OK: []int{}, OV: []int{}, LK: []int{}, LA: []int{}, AK: []int{}, AV: []int{}}
+			i, at := 0, 0
+			for k, v := range t.All() {
+				ck := api.fromK(k)
+				nr.OK = append(nr.OK, rank[ck])
+				nr.OV = append(nr.OV, vr.vidOf(r, v))
+				if i == 0 || i%realF == 0 || i%realF == realF-1 || i%step == step-1 {
+					asks := []ckey{ck}
+					if n := len(written); n > 0 {
+						asks = append(asks, written[(i+realF+5)%n])
+					}
+					if len(probes) > 0 {
+						asks = append(asks, probes[(i+at)%len(probes)])
+					}
+					for _, a := range asks {
+						nr.LK = append(nr.LK, rank[a])
+						nr.LA = append(nr.LA, answer(t, a))
+					}
+					ob.Evals += len(asks)
+					if at%2 == 0 {
+						nr.AC++
+						j := 0
+						for k2, v2 := range t.All() {
+							nr.AK = append(nr.AK, rank[api.fromK(k2)])
+							nr.AV = append(nr.AV, vr.vidOf(r, v2))
+							j++
+							if j >= 3 {
+								break
+							}
+						}
+						ob.Evals++
+					}
+					at++
+				}
+				i++
+				if i > 3*len(written)+10 {
+					break // a reader gone astray
+				}
+			}
+			return nr
+		}
+		rec.Nest, rec.MNest = nested(ff), nested(mem)
+		ob.Evals += 2
 	}
 	return ob, nil
 }
@@ -774,7 +896,7 @@ func breakAt[K cmp.Ordered](t reader[K], k int) (panicked int) {
 // walk extracts every node dictionary reachable from root.  Nodes are numbered
 // in discovery order (root = 1); a node reached twice keeps its number, so
 // sharing and cycles show up as a kid list that is not a tree.
-func walk(r pdf.Getter, root pdf.Object, leafKey pdf.Name, decodeKey func(pdf.Getter, pdf.Object) (ckey, bool)) []rawNode {
+func walk(r pdf.Getter, root pdf.Object, leafKey pdf.Name, decodeKey func(pdf.Getter, pdf.Object) (ckey, bool), vr *valRefs) []rawNode {
 	var nodes []rawNode
 	byRef := map[pdf.Reference]int{}
 	type item struct {
@@ -845,7 +967,7 @@ func walk(r pdf.Getter, root pdf.Object, leafKey pdf.Name, decodeKey func(pdf.Ge
 					continue
 				}
 				nd.Keys = append(nd.Keys, k)
-				nd.Vals = append(nd.Vals, vidOf(r, arr[i+1]))
+				nd.Vals = append(nd.Vals, vr.vidOf(r, arr[i+1]))
 			}
 		}
 		if hasKids {
